@@ -393,4 +393,91 @@ def binSRD (t : Tie) (phase alphaNone : Bool) (th th' : Rat → Rat) (f : D) (u 
 def binSRUnstoppedD (t : Tie) (phase alphaNone : Bool) (th th' : Rat → Rat) (f : D) (u : Rat) (x xq : D) : D :=
   binSRWith (binSRTrainXUnstopped t f u) phase alphaNone th th' x xq
 
+/-! ### one quantizer OBJECT over a history (strengthening round, seed C06-7)
+
+    Every `__call__` of the classes transcribed above reads its options from `self` AT CALL TIME
+    (`if self.alpha is None: x = K.tanh(x)`, `if self.use_ste:`, `self.qnoise_factor`, …) and the options
+    are plain mutable attributes: `q.alpha = …`, `q.use_ste = …`, `update_qnoise_factor`, and
+    `_set_trainable_parameter()` (called by every QDense / QConv* / QDepthwise* / QSeparable* layer on its
+    kernel quantizer: `if self.alpha is None: self.alpha = "auto_po2"`).  An object is therefore its CURRENT
+    attributes `A`; a history is a list of attribute updates (arbitrary functions `A → A`) and calls; the
+    (value, gradient) a call emits is `f attrs input` for the attributes in force at that moment.  `HObj` is
+    that object for ANY attribute type and any transcription `f`; `HFrozen` is the same object with the
+    attributes `__call__` uses captured at construction (what hoisting a `self.…`-dependent choice into
+    `__init__` does — the seed). -/
+
+inductive HOp (A I : Type) where
+  | set (g : A → A)      -- an attribute assignment / setter / `_set_trainable_parameter()`
+  | call (i : I)         -- `q(x)` under a tape
+
+structure HObj (A : Type) where
+  attrs : A
+  outs : List D := []
+
+def HObj.new {A : Type} (a : A) : HObj A := { attrs := a, outs := [] }
+
+def HObj.step {A I : Type} (f : A → I → D) (o : HObj A) : HOp A I → HObj A
+  | .set g => { o with attrs := g o.attrs }
+  | .call i => { o with outs := o.outs ++ [f o.attrs i] }
+
+def HObj.run {A I : Type} (f : A → I → D) (o : HObj A) (ops : List (HOp A I)) : HObj A :=
+  ops.foldl (HObj.step f) o
+
+/-- what an operation does to the attributes (calls change none) -/
+def HOp.apply {A I : Type} (a : A) : HOp A I → A
+  | .set g => g a
+  | .call _ => a
+
+/-- the mutated object: `captured` = the attributes as they were at construction; calls use THEM -/
+structure HFrozen (A : Type) where
+  attrs : A
+  captured : A
+  outs : List D := []
+
+def HFrozen.new {A : Type} (a : A) : HFrozen A := { attrs := a, captured := a, outs := [] }
+
+def HFrozen.step {A I : Type} (f : A → I → D) (o : HFrozen A) : HOp A I → HFrozen A
+  | .set g => { o with attrs := g o.attrs }
+  | .call i => { o with outs := o.outs ++ [f o.captured i] }
+
+def HFrozen.run {A I : Type} (f : A → I → D) (o : HFrozen A) (ops : List (HOp A I)) : HFrozen A :=
+  ops.foldl (HFrozen.step f) o
+
+/-- the `alpha` attribute of binary / ternary / stochastic_binary / stochastic_ternary -/
+inductive BTAlpha where
+  | none                  -- alpha=None: codes ±1, surrogate tanh
+  | const (c : Rat)       -- a number / ndarray: codes ±c, identity surrogate
+  | auto                  -- "auto"
+  | autoPo2               -- "auto_po2"
+  deriving DecidableEq, Repr, Inhabited
+
+def BTAlpha.isNone : BTAlpha → Bool
+  | .none => true
+  | _ => false
+
+/-- `_set_trainable_parameter()`: `if self.alpha is None: self.alpha = "auto_po2"` -/
+def BTAlpha.setTrainable : BTAlpha → BTAlpha
+  | .none => .autoPo2
+  | a => a
+
+/-- input of one call: the point and the `scale * code` tensor the implementation emitted (oracle) -/
+structure BTIn where
+  x : D
+  xq : D
+
+/-- `binary.__call__` / `ternary.__call__` tail on an object: the surrogate is chosen by the CURRENT alpha -/
+def btCall (th th' : Rat → Rat) (a : BTAlpha) (i : BTIn) : D := binTerD a.isNone th th' i.x i.xq
+
+/-- attributes of the straight-through classes (quantized_bits / _po2: `xu = x`; the ReLU family: `xu` the
+    leaky / bounded ReLU): `use_ste`, `qnoise_factor` -/
+structure SteAttrs where
+  useSte : Bool
+  qf : Rat
+
+structure SteIn where
+  xu : D
+  xq : D
+
+def steCall (a : SteAttrs) (i : SteIn) : D := steMix a.useSte a.qf i.xu i.xq
+
 end QKV
